@@ -534,6 +534,37 @@ func ruleLimitTable(c *core.Ctx) {
 				}
 				return true
 			})
+			// unexported functions and methods of the package that the body
+			// refers to (called, or handed on as a method value instead of a closure)
+			seenFn := map[*core.Func]bool{fn: true}
+			var addRefs func(f *core.Func, depth int)
+			addRefs = func(f *core.Func, depth int) {
+				ast.Inspect(f.Decl.Body, func(n ast.Node) bool {
+					id, ok := n.(*ast.Ident)
+					if !ok {
+						return true
+					}
+					tf, ok := f.Info().Uses[id].(*types.Func)
+					if !ok || tf.Exported() || tf.Pkg() == nil || tf.Pkg() != fn.Obj.Pkg() {
+						return true
+					}
+					if rf := c.Prog.FuncOf(tf); rf != nil && !seenFn[rf] && rf.Decl.Body != nil {
+						seenFn[rf] = true
+						graphs = append(graphs, rf.Graph())
+						ast.Inspect(rf.Decl.Body, func(m ast.Node) bool {
+							if lit, ok := m.(*ast.FuncLit); ok {
+								graphs = append(graphs, rf.LitGraph(lit))
+							}
+							return true
+						})
+						if depth > 0 {
+							addRefs(rf, depth-1)
+						}
+					}
+					return true
+				})
+			}
+			addRefs(fn, 1)
 			for _, g := range graphs {
 				for _, bv := range g.BranchVertices() {
 					if bv.Cond.Expr == nil || !core.Mentions(info, bv.Cond.Expr, lim) {
@@ -1377,7 +1408,9 @@ func ruleUncheckedAssertions(c *core.Ctx) {
 				n++
 				o.Count(1)
 				key := fn.Key + "|" + c.Prog.Src(ta.Type)
-				if _, ok := c05Assertions[key]; !ok {
+				typ := c.Prog.Src(ta.Type)
+				reviewed := allowedOrOnlyCalledBy(c, fn, func(k string) bool { _, ok := c05Assertions[k+"|"+typ]; return ok }, 0)
+				if !reviewed {
 					o.FailAt(fn.Site(ta, ""), "%s: unchecked type assertion %s in %s is not in the reviewed table (key %q)", c.Prog.Pos(ta.Pos()), c.Prog.Src(ta), fn.Key, key)
 				}
 				return true
